@@ -30,6 +30,7 @@ def check_phase(res, spec, obs, ph, ta=25.0, want=("C01", "C02", "C04"), d=None,
             return None
         rows[name] = obs[(ph, name)]
     psrc = pload = ploss = 0.0
+    vmax = 1.0
     any_neg_rs_source = False
     for name, rec in d.items():
         k = rec["k"]
@@ -100,7 +101,8 @@ def check_phase(res, spec, obs, ph, ta=25.0, want=("C01", "C02", "C04"), d=None,
         # ---- C02 energy book-keeping -------------------------------------------------------
         if "C02" in want:
             if k not in LOADS:
-                if not close(P - L, abs(vout) * iout, 1e-4, 1e-9):
+                # solver tolerance: currents are converged to 1e-8 A absolute -> powers to ~1e-8 A x |V|
+                if not close(P - L, abs(vout) * iout, 1e-4, 5e-8 * max(1.0, abs(vin), abs(vout))):
                     res.v(("C02.balance", k, *tags), "%s P-L %r but |Vout|*Iout %r" % (name, P - L, abs(vout) * iout))
                 if L < -1e-12 or L > P * (1 + 1e-9) + 1e-12:
                     res.v(("C02.loss-range", k, *tags), "%s Loss %r Power %r" % (name, L, P))
@@ -110,29 +112,67 @@ def check_phase(res, spec, obs, ph, ta=25.0, want=("C01", "C02", "C04"), d=None,
                     if not (-1e-9 <= E <= 100.0 + 1e-9):
                         res.v(("C02.eff-range", k, *tags), "%s Eff %r" % (name, E))
                 ploss += L
+                if L > 0:
+                    res.stats["lossy_rows"] += 1
                 if k == "Source":
                     psrc += P
+                    vmax = max(vmax, abs(vin))
             else:
                 cons = abs(vin) * iin
                 if rec["a"].get("loss", False):
                     if not (close(L, cons, 1e-12, 1e-15) and P == 0):
                         res.v(("C02.load-loss", k), "%s loss-load P %r L %r consumption %r" % (name, P, L, cons))
                     ploss += L
+                    if L > 0:
+                        res.stats["lossload_rows"] += 1
                 else:
                     if not (close(P, cons, 1e-12, 1e-15) and L == 0):
                         res.v(("C02.load-power", k), "%s load P %r L %r consumption %r" % (name, P, L, cons))
                     pload += P
             if k != "Source":
                 rt = abs(rec["a"].get("rt", 0.0))
-                shown = "Temp. rise (°C)" in r and "Peak temp. (°C)" in r
+                shown = has(r, "Temp. rise (°C)") and has(r, "Peak temp. (°C)")  # blank = not displayed for this phase
                 tr, tp = g(r, "Temp. rise (°C)"), g(r, "Peak temp. (°C)")
-                lt = ["loss=%s" % rec["a"].get("loss", False)] if k in LOADS else []
+                lt = []
+                if k in LOADS:  # how the rise relates to the consumption (identifies the recorded finding exactly)
+                    lt = ["loss=%s" % rec["a"].get("loss", False),
+                          "rise=rt*consumption" if close(tr, rt * abs(vin) * iin, 1e-12, 1e-15) else "rise=other"]
                 if not close(tr, rt * L, 1e-12, 1e-15):
                     res.v(("C02.trise", k, *lt, "shown" if shown else "hidden"), "%s rise %r but rt*Loss %r" % (name, tr, rt * L))
                 if shown and not close(tp, ta + tr, 1e-12, 1e-12):
                     res.v(("C02.tpeak", k, "dead" if vin == 0 else ("inactive" if not act else "live")), "%s peak %r but ta+rise %r" % (name, tp, ta + tr))
                 if rt * L > 0:
                     res.stats["temp_rows"] += 1
-    if "C02" in want and not close(psrc, pload + ploss, 1e-4, 1e-9):
+    if "C02" in want and not close(psrc, pload + ploss, 1e-4, 5e-8 * vmax * len(d)):
         res.v(("C02.system", "neg-source-rs" if any_neg_rs_source else "plain"), "sources %r loads+losses %r" % (psrc, pload + ploss))
     return rows
+
+
+def solve_and_check(res, spec, want, ta=25.0, solve_kw=None):
+    """Build the real system, solve it (all phases) and run the row oracles for every phase.
+    Returns (system, obs) or (system, None) when solve() raised RuntimeError / 'Unstable' (not judged here)."""
+    from .common import quiet_call
+    from .sysmodel import build, observe
+    s = build(spec)
+    res.stats["transitions"] += len(spec["comps"]) + 1
+    try:
+        df, _ = quiet_call(s.solve, ta=ta, **(solve_kw or {}))
+    except RuntimeError as e:
+        res.classes.add("raised:RuntimeError")
+        res.stats["unsolvable"] += 1
+        return s, None
+    except ValueError as e:
+        if "Unstable" in str(e):
+            res.classes.add("raised:Unstable")
+            res.stats["unsolvable"] += 1
+            return s, None
+        res.v(("%s.exception" % want[0], "ValueError"), str(e))
+        return s, None
+    obs = observe(df)
+    res.stats["traces"] += 1
+    res.classes.add("solved")
+    d = resolve(spec)
+    for ph in (list(spec["phases"]) if spec.get("phases") else [""]):
+        check_phase(res, spec, obs, ph, ta, want, d)
+        res.stats["phase_tables"] += 1
+    return s, obs
